@@ -216,6 +216,35 @@ func checkC07(w *World, c *Check, tier string) {
 			}
 			_ = res
 		}
+		// JSON with the extension hook installed: the outcome for a vocabulary name must not change
+		if hg := w.Global("JSONItemUnmarshal"); hg != nil {
+			ip := newInterp(w)
+			ip.globals[hg] = AV{K: kExtFn, Tag: "JSONItemUnmarshal"}
+			ip.overrides[jsonTag] = mkName(n)
+			leaves := observeLeaves(w, ip, jsonD)
+			hookHit := false
+			ip.onExtCall = func(site ssa.Instruction, tag string, args []AV) {
+				if tag == "JSONItemUnmarshal" {
+					hookHit = true
+				}
+			}
+			ip.Call(jsonD, []AV{avNonNilPtr(valT)}, nil, Store{}, nil)
+			key := fmt.Sprintf("hook-installed:%q", n)
+			ks := map[*types.Named]bool{}
+			for _, l := range *leaves {
+				ks[l.k] = true
+			}
+			switch {
+			case ip.aborted != "":
+				c.bad("C07.hooks", key, w.FuncPos(jsonD), "undecided: "+ip.aborted)
+			case hookHit:
+				c.bad("C07.hooks", key, w.FuncPos(jsonD), fmt.Sprintf("with JSONItemUnmarshal installed, a document of vocabulary type %q can be handed to the hook instead of (or in addition to) its vocabulary loader", n))
+			case len(ks) != 1 || !ks[k]:
+				c.bad("C07.hooks", key, w.FuncPos(jsonD), fmt.Sprintf("with JSONItemUnmarshal installed, type %q no longer reaches exactly the loader of *%s (reaches %v)", n, k.Obj().Name(), leafNames(*leaves)))
+			default:
+				c.ok("C07.hooks", key, w.FuncPos(jsonD), "same loader, hook not reached")
+			}
+		}
 		// gob encode
 		{
 			ip := newInterp(w)
